@@ -143,6 +143,19 @@ Proof.
     destruct (IH H) as [[p0 [Hin Hp]]|Hq]; [left; exists p0; split; [right; exact Hin|exact Hp]|right; exact Hq].
 Qed.
 
+Lemma alt_app_inv_err {A} (ps : list (parser A)) q qs i r a : alt (ps ++ q :: qs) i = POk r a ->
+  (exists p, In p ps /\ p i = POk r a) \/ (Forall (fun p => is_perr (p i)) ps /\ alt (q :: qs) i = POk r a).
+Proof.
+  induction ps as [|p ps IH]; cbn [app]; intros H; [right; split; [constructor|exact H]|].
+  destruct ps as [|p' ps']; cbn [app] in *.
+  - apply alt_cons_inv in H. destruct H as [H|[He H]]; [left; exists p; split; [left; reflexivity|exact H]|right; split; [repeat constructor; exact He|exact H]].
+  - apply alt_cons_inv in H. destruct H as [H|[He H]]; [left; exists p; split; [left; reflexivity|exact H]|].
+    destruct (IH H) as [[p0 [Hin Hp]]|[Hf Hq]]; [left; exists p0; split; [right; exact Hin|exact Hp]|right; split; [constructor; assumption|exact Hq]].
+Qed.
+
+Lemma pbind_ret_err {A B} (x : pres A) (v : B) : is_perr (pbind x (fun i _ => POk i v)) -> is_perr x.
+Proof. destruct x; cbn; auto. Qed.
+
 (* decompose a chain of binds *)
 Ltac binv H :=
   repeat (let i := fresh "i" in let a := fresh "a" in let E := fresh "E" in
